@@ -43,6 +43,7 @@ use crate::pbmut;
 use crate::seeds;
 use crate::shadow::{self, Msg};
 use crate::shrink;
+use std::cell::Cell;
 use std::collections::HashSet;
 use std::io::BufRead;
 use vcommon::onnxpb;
@@ -71,7 +72,10 @@ impl Fmt {
 #[derive(Clone, Debug)]
 pub struct Case {
     pub bytes: Vec<u8>,
+    /// How the bytes are presented to the file entry points (extension).
     pub fmt: Fmt,
+    /// Format of the model the bytes were derived from (used in signatures).
+    pub origin: Fmt,
     pub class: String,
     pub seed_name: String,
     pub structured: bool,
@@ -118,13 +122,32 @@ impl Finding {
 }
 
 /// Normalise a panic message for signatures: no numbers, no shape lists, no
-/// toolchain / checkout path prefixes.
+/// toolchain / checkout path prefixes, no line numbers. A panic raised
+/// outside rten keeps the first rten frame (file only).
 pub fn norm_panic(msg: &str) -> String {
-    let mut s = crate::c38::norm_panic(msg);
-    s = s.replace("/repo/", "");
+    fn file_of(loc: &str) -> String {
+        let mut l = loc.trim();
+        for marker in ["/library/", "/registry/src/"] {
+            if let Some(p) = l.find(marker) {
+                l = &l[p + 1..];
+            }
+        }
+        let l = l.strip_prefix("/repo/").unwrap_or(l);
+        // drop ":line"
+        match l.rsplit_once(':') {
+            Some((f, n)) if n.chars().all(|c| c.is_ascii_digit()) => f.to_string(),
+            _ => l.to_string(),
+        }
+    }
+    let (head, frame) = match msg.find(" [first rten frame ") {
+        Some(i) => (&msg[..i], Some(msg[i + 18..].trim().trim_end_matches(']').to_string())),
+        None => (msg, None),
+    };
+    let (m, loc) = head.rsplit_once(" @ ").unwrap_or((head, ""));
+    let m = panic_class(m);
     // "[N, N, N]" -> "[..]"
     let mut out = String::new();
-    let mut rest = s.as_str();
+    let mut rest = m.as_str();
     while let Some(a) = rest.find('[') {
         out.push_str(&rest[..a]);
         if let Some(b) = rest[a..].find(']') {
@@ -141,7 +164,18 @@ pub fn norm_panic(msg: &str) -> String {
         }
     }
     out.push_str(rest);
-    out
+    if out.len() > 110 {
+        let mut cut = 110;
+        while !out.is_char_boundary(cut) {
+            cut -= 1;
+        }
+        out.truncate(cut);
+    }
+    let mut sig = format!("{} @ {}", out, file_of(loc));
+    if let Some(f) = frame {
+        sig.push_str(&format!(" <- {}", file_of(&f)));
+    }
+    sig
 }
 
 fn justified_alloc(len: usize) -> u64 {
@@ -221,16 +255,19 @@ pub struct Ctx {
     pub env: Env,
     pub alarm_s: u32,
     pub asan: bool,
+    pub children: Cell<u64>,
+    pub child_deaths: Cell<u64>,
+    pub child_deaths_after_last_case: Cell<u64>,
 }
 
 impl Ctx {
     pub fn new() -> Ctx {
         let asan = std::env::var("VERIF_FLAVOUR").map(|f| f == "asan").unwrap_or(false);
-        Ctx { region: Region::new(), env: Env::new(), alarm_s: if asan { 40 } else { 15 }, asan }
+        Ctx { region: Region::new(), env: Env::new(), alarm_s: if asan { 40 } else { 15 }, asan, children: Cell::new(0), child_deaths: Cell::new(0), child_deaths_after_last_case: Cell::new(0) }
     }
 
     /// Run `cases` in as few children as possible. Returns one outcome per case.
-    pub fn run_batch(&self, cases: &[Case], alarm_s: u32, demonstrate: bool, stats: &mut Stats) -> Vec<Outcome> {
+    pub fn run_batch(&self, cases: &[Case], alarm_s: u32, demonstrate: bool) -> Vec<Outcome> {
         let mut outcomes: Vec<Outcome> = Vec::with_capacity(cases.len());
         let mut start = 0usize;
         while start < cases.len() {
@@ -239,15 +276,16 @@ impl Ctx {
             let region = &self.region;
             let env = &self.env;
             let batch = self.region.run(|| {
+                ex::install_child_panic_hook();
                 for (i, c) in slice.iter().enumerate() {
                     region.begin_case(i as u32, alarm_s);
-                    let xo = ExecOpts { const_outputs: if c.run_model { 8 } else { 2 }, run_model: c.run_model, demonstrate };
+                    let xo = ExecOpts { alarm_s, run_alarm_s: (alarm_s / 4).max(3), const_outputs: if c.run_model { 8 } else { 2 }, run_model: c.run_model, demonstrate };
                     let outs = ex::exec_case(&c.bytes, c.mask, c.fmt == Fmt::Rten, env, Some(region), &xo);
                     region.push_record(&Json::Array(outs.iter().map(|o| o.to_json()).collect()).to_string());
                 }
             });
             allocmon::set_shared(std::ptr::null_mut());
-            stats.children += 1;
+            self.children.set(self.children.get() + 1);
             let n_done = batch.records.len();
             for r in &batch.records {
                 let j: Json = serde_json::from_str(r).unwrap_or(Json::Null);
@@ -259,12 +297,12 @@ impl Ctx {
             }
             if n_done >= slice.len() {
                 // Died after the last record (during exit): nothing in flight.
-                stats.child_deaths_after_last_case += 1;
+                self.child_deaths_after_last_case.set(self.child_deaths_after_last_case.get() + 1);
                 break;
             }
             // The case in flight is the one after the completed ones.
             let class = c05run::crash_class(&batch.end, &batch.stderr);
-            stats.child_deaths += 1;
+            self.child_deaths.set(self.child_deaths.get() + 1);
             outcomes.push(Outcome {
                 outs: Vec::new(),
                 crash: Some(Crash { class, stage: batch.stage, entry: batch.aux, max_alloc: batch.max_alloc, stderr: tail(&batch.stderr, 6000), malformed_seen: batch.aux2 }),
@@ -274,8 +312,46 @@ impl Ctx {
         outcomes
     }
 
-    pub fn run_one(&self, case: &Case, alarm_s: u32, demonstrate: bool, stats: &mut Stats) -> Outcome {
-        self.run_batch(std::slice::from_ref(case), alarm_s, demonstrate, stats).pop().unwrap_or_default()
+    /// Delta-debug `case` inside ONE child for findings that do not kill the
+    /// process (panics, malformed constants): forking per attempt costs tens
+    /// of milliseconds on a loaded machine. Every improvement is published to
+    /// the shared region, so a death half-way still leaves the best so far.
+    pub fn shrink_in_child(&self, case: &Case, key: &(String, String), max_exec: usize, box_s: f64) -> (Vec<u8>, usize) {
+        allocmon::set_shared(self.region.max_alloc_ptr());
+        let region = &self.region;
+        let env = &self.env;
+        let alarm_s = self.alarm_s;
+        let batch = self.region.run(|| {
+            ex::install_child_panic_hook();
+            let t0 = std::time::Instant::now();
+            let mut execs = 0u32;
+            let xo = ExecOpts { alarm_s, run_alarm_s: 3, const_outputs: 2, run_model: false, demonstrate: false };
+            let (best, _) = shrink::ddmin(&case.bytes, max_exec, |cand| {
+                execs += 1;
+                if t0.elapsed().as_secs_f64() > box_s {
+                    return false;
+                }
+                region.begin_case(execs, alarm_s);
+                let outs = ex::exec_case(cand, FULL_MASK, case.fmt == Fmt::Rten, env, Some(region), &xo);
+                let oc = Outcome { outs, crash: None };
+                let hit = judge(cand, &oc).iter().any(|g| &g.key() == key);
+                if hit {
+                    region.push_record(&format!("{}:{}", execs, to_hex(cand)));
+                }
+                hit
+            });
+            region.push_record(&format!("{}:{}", execs, to_hex(&best)));
+        });
+        allocmon::set_shared(std::ptr::null_mut());
+        self.children.set(self.children.get() + 1);
+        match batch.records.last().and_then(|r| r.split_once(':')) {
+            Some((n, hex)) => (from_hex(hex), n.parse().unwrap_or(0)),
+            None => (case.bytes.clone(), 0),
+        }
+    }
+
+    pub fn run_one(&self, case: &Case, alarm_s: u32, demonstrate: bool) -> Outcome {
+        self.run_batch(std::slice::from_ref(case), alarm_s, demonstrate).pop().unwrap_or_default()
     }
 }
 
@@ -289,13 +365,6 @@ fn tail(s: &str, n: usize) -> String {
         cut -= 1;
     }
     s[..cut].to_string()
-}
-
-#[derive(Default)]
-pub struct Stats {
-    pub children: u64,
-    pub child_deaths: u64,
-    pub child_deaths_after_last_case: u64,
 }
 
 // ---------------------------------------------------------------- seeds
@@ -557,12 +626,33 @@ fn pick_mask(rng: &mut Rng, fmt: Fmt) -> u32 {
 pub struct Runner<'a> {
     pub rep: &'a mut Report,
     pub ctx: &'a Ctx,
-    pub stats: Stats,
     seen: HashSet<(Fmt, String, String)>,
     pub shrink_exec: usize,
     pub shrink_box_s: f64,
     pub unattributed: Vec<Json>,
     pub replaying: bool,
+}
+
+/// Mutation class for the evidence counters (numeric variants collapsed).
+fn coarse_class(part: &str) -> String {
+    if let Some(rest) = part.strip_prefix("tensor:") {
+        if rest.starts_with("dtype_") && rest.contains("_to_") {
+            return "tensor:dtype_swapped".into();
+        }
+        if rest.starts_with("external_") {
+            return format!("tensor:{}", rest);
+        }
+    }
+    if part.starts_with("nest:") {
+        return "nest:if_graphs".into();
+    }
+    if part.starts_with("spec:inline_union_tag_") {
+        return "spec:inline_union_tag".into();
+    }
+    if part.starts_with("spec:dtype_field_") {
+        return "spec:dtype_field".into();
+    }
+    part.to_string()
 }
 
 fn past_framing(o: &EntryOut) -> bool {
@@ -576,14 +666,16 @@ fn past_framing(o: &EntryOut) -> bool {
 
 impl<'a> Runner<'a> {
     pub fn new(rep: &'a mut Report, ctx: &'a Ctx) -> Self {
-        Runner { rep, ctx, stats: Stats::default(), seen: HashSet::new(), shrink_exec: 200, shrink_box_s: 6.0, unattributed: Vec::new(), replaying: false }
+        Runner { rep, ctx, seen: HashSet::new(), shrink_exec: 300, shrink_box_s: 5.0, unattributed: Vec::new(), replaying: false }
     }
 
     fn evidence(&mut self, case: &Case, oc: &Outcome) {
         let rep = &mut *self.rep;
         rep.eval();
-        let top = case.class.split(['&', '+']).next().unwrap_or("");
-        rep.count(&format!("mut.{}.{}", case.fmt.name(), top));
+        for part in case.class.split(['&', '+']) {
+            rep.count(&format!("mut.{}", coarse_class(part)));
+        }
+        rep.count(&format!("mutfamily.{}.{}", case.origin.name(), case.class.split([':', '&', '+', '_']).next().unwrap_or("")));
         if case.class.contains("+noise") {
             rep.count("mut.byte_noise_on_top");
         }
@@ -649,9 +741,10 @@ impl<'a> Runner<'a> {
     pub fn absorb(&mut self, case: &Case, oc: Outcome) {
         let mut oc = oc;
         // A crash is always confirmed by running the case alone.
-        if let Some(c) = &oc.crash {
+        let unjudged_run_death = oc.crash.as_ref().map(|c| matches!(c.stage, ex::ST_RUN | ex::ST_CONST_OUT) && c.malformed_seen == 0).unwrap_or(false);
+        if let (Some(c), false) = (&oc.crash, unjudged_run_death) {
             let confirm_alarm = if c.class == "timeout" { self.ctx.alarm_s * 4 } else { self.ctx.alarm_s };
-            let again = self.ctx.run_one(case, confirm_alarm, false, &mut self.stats);
+            let again = self.ctx.run_one(case, confirm_alarm, false);
             match (&again.crash, c) {
                 (Some(c2), c1) if c2.class == c1.class && c2.stage == c1.stage => {
                     self.rep.count("child_death_confirmed_alone");
@@ -680,19 +773,19 @@ impl<'a> Runner<'a> {
         }
         let findings = judge(&case.bytes, &oc);
         for f in findings {
-            self.rep.count(&format!("finding.{}", f.signature(case.fmt)));
+            self.rep.count(&format!("finding.{}", f.signature(case.origin)));
             let k = f.key();
-            if !self.seen.insert((case.fmt, k.0, k.1)) {
+            if !self.seen.insert((case.origin, k.0, k.1)) {
                 continue;
             }
             self.report(case, &f);
         }
     }
 
-    fn reproduces(&mut self, case: &Case, bytes: &[u8], f: &Finding) -> Option<Finding> {
+    fn reproduces(&self, case: &Case, bytes: &[u8], f: &Finding) -> Option<Finding> {
         let c = Case { bytes: bytes.to_vec(), mask: FULL_MASK, run_model: false, ..case.clone() };
         let alarm = if f.class == "no_return_within_bound" { self.ctx.alarm_s } else { self.ctx.alarm_s };
-        let mut oc = self.ctx.run_one(&c, alarm, false, &mut self.stats);
+        let mut oc = self.ctx.run_one(&c, alarm, false);
         if let Some(cr) = oc.crash.as_mut() {
             if cr.class == "timeout" && cr.stage == ex::ST_LOAD && f.class == "no_return_within_bound" {
                 cr.class = "no_return_within_bound".into();
@@ -709,19 +802,23 @@ impl<'a> Runner<'a> {
         } else {
             let max_exec = if case.bytes.len() > 100_000 { 30 } else { self.shrink_exec };
             let box_s = self.shrink_box_s;
-            let mut me = std::mem::replace(self, unsafe { std::mem::zeroed() });
-            // (the closure needs &mut self; swap avoided by a small dance below)
-            let res = {
-                let me_ref = &mut me;
-                let r = shrink::ddmin(&case.bytes, max_exec, |cand| {
+            let kills_process = f.stage != "load" && f.stage != "loaded_model" || !(f.class.starts_with("panic:") || f.class.starts_with("malformed_constant:"));
+            let res = if kills_process {
+                // One child per attempt: keep it short.
+                shrink::ddmin(&case.bytes, max_exec.min(60), |cand| {
                     execs += 1;
-                    t0.elapsed().as_secs_f64() < box_s && me_ref.reproduces(case, cand, f).is_some()
-                });
-                r
+                    t0.elapsed().as_secs_f64() < box_s && self.reproduces(case, cand, f).is_some()
+                })
+            } else {
+                let (b, n) = self.ctx.shrink_in_child(case, &f.key(), max_exec, box_s);
+                execs = n;
+                (b, n)
             };
-            std::mem::forget(std::mem::replace(self, me));
-            let fin = self.reproduces(case, &res.0, f).unwrap_or_else(|| f.clone());
-            (res.0, fin)
+            match self.reproduces(case, &res.0, f) {
+                Some(fin) => (res.0, fin),
+                // Never report a shrunk input that does not reproduce.
+                None => (case.bytes.clone(), self.reproduces(case, &case.bytes, f).unwrap_or_else(|| f.clone())),
+            }
         };
         self.rep.add("time_us.shrinking", t0.elapsed().as_micros() as u64);
         self.rep.add("shrink_executions", execs as u64);
@@ -729,7 +826,7 @@ impl<'a> Runner<'a> {
         let mut consequence = Json::Null;
         if fin.class.starts_with("malformed_constant:") {
             let c = Case { bytes: shrunk.clone(), mask: ex::entry_bit(fin.entry), run_model: true, ..case.clone() };
-            let oc = self.ctx.run_one(&c, self.ctx.alarm_s, true, &mut self.stats);
+            let oc = self.ctx.run_one(&c, self.ctx.alarm_s, true);
             consequence = match &oc.crash {
                 Some(cr) => json!({"reading_all_elements_and_running_the_model": format!("child ended with {} in stage {}", cr.class, ex::stage_name(cr.stage)), "stderr": tail(&cr.stderr, 2500)}),
                 None => json!({"reading_all_elements_and_running_the_model": "completed", "run": oc.outs.first().map(|o| o.run.clone())}),
@@ -737,7 +834,8 @@ impl<'a> Runner<'a> {
         }
         let hex = if shrunk.len() <= 262_144 { Some(to_hex(&shrunk)) } else { None };
         let witness = json!({
-            "fmt": case.fmt.name(),
+            "fmt": case.origin.name(),
+            "presented_as": case.fmt.name(),
             "entry": ex::entry_name(fin.entry),
             "entry_group": fin.group,
             "stage": fin.stage,
@@ -751,7 +849,7 @@ impl<'a> Runner<'a> {
             "consequence": consequence,
         });
         let head = hex.as_deref().map(|h| h[..h.len().min(64)].to_string()).unwrap_or_default();
-        self.rep.violation(fin.signature(case.fmt), format!("{} [{} bytes {}: {}...]", fin.detail, shrunk.len(), case.fmt.name(), head), witness);
+        self.rep.violation(fin.signature(case.origin), format!("{} [{} bytes {}: {}...]", fin.detail, shrunk.len(), case.fmt.name(), head), witness);
     }
 }
 
@@ -763,7 +861,8 @@ fn witness_case(w: &Json) -> Option<Case> {
     let bytes = from_hex(w["hex"].as_str()?);
     Some(Case {
         bytes,
-        fmt: Fmt::from_name(w["fmt"].as_str().unwrap_or("onnx")),
+        fmt: Fmt::from_name(w["presented_as"].as_str().or(w["fmt"].as_str()).unwrap_or("onnx")),
+        origin: Fmt::from_name(w["fmt"].as_str().unwrap_or("onnx")),
         class: w["generated_as"].as_str().unwrap_or("replay").to_string(),
         seed_name: w["seed_model"].as_str().unwrap_or("replay").to_string(),
         structured: true,
@@ -793,7 +892,7 @@ pub fn run(args: &Args) {
         let case = read_witness_file(path).expect("replay file has no usable witness (fmt + hex)");
         let mut r = Runner::new(&mut rep, &ctx);
         r.replaying = true;
-        let oc = r.ctx.run_one(&case, ctx.alarm_s, false, &mut r.stats);
+        let oc = r.ctx.run_one(&case, ctx.alarm_s, false);
         r.absorb(&case, oc);
         ctx.env.cleanup();
         rep.finish();
@@ -806,7 +905,7 @@ pub fn run(args: &Args) {
     // ---- seeds
     let mut pools = Pools { onnx: Vec::new(), rten: Vec::new() };
     for s in seeds::build(true) {
-        let must = matches!(s.name, "mlp" | "big_raw" | "mnist" | "typed_tensors");
+        let must = matches!(s.name, "mlp" | "big_raw" | "mnist");
         pools.onnx.push(OnnxSeed { name: s.name.to_string(), bytes: s.bytes, must_load: must });
     }
     pools.onnx.push(OnnxSeed { name: "storage_paths".into(), bytes: seed_storage_paths(), must_load: true });
@@ -858,7 +957,7 @@ pub fn run(args: &Args) {
             for p in list.split(',').filter(|p| !p.is_empty()) {
                 match read_witness_file(p) {
                     Some(case) => {
-                        let oc = runner.ctx.run_one(&case, ctx.alarm_s, false, &mut runner.stats);
+                        let oc = runner.ctx.run_one(&case, ctx.alarm_s, false);
                         runner.absorb(&case, oc);
                         runner.rep.count("pinned_witnesses_run");
                     }
@@ -876,16 +975,16 @@ pub fn run(args: &Args) {
         if s.name.contains('-') && i % 4 != 0 {
             continue;
         }
-        seed_cases.push((Case { bytes: s.bytes.clone(), fmt: Fmt::Onnx, class: "seed".into(), seed_name: s.name.clone(), structured: true, mask: FULL_MASK, run_model: true }, s.must_load));
+        seed_cases.push((Case { bytes: s.bytes.clone(), fmt: Fmt::Onnx, origin: Fmt::Onnx, class: "seed".into(), seed_name: s.name.clone(), structured: true, mask: FULL_MASK, run_model: true }, s.must_load));
     }
     for s in &pools.rten {
-        seed_cases.push((Case { bytes: s.bytes.clone(), fmt: Fmt::Rten, class: "seed".into(), seed_name: s.name.clone(), structured: true, mask: FULL_MASK, run_model: true }, true));
+        seed_cases.push((Case { bytes: s.bytes.clone(), fmt: Fmt::Rten, origin: Fmt::Rten, class: "seed".into(), seed_name: s.name.clone(), structured: true, mask: FULL_MASK, run_model: true }, true));
     }
     let mut selftest: Vec<String> = Vec::new();
     {
         let cases: Vec<Case> = seed_cases.iter().map(|c| c.0.clone()).collect();
         for chunk in cases.chunks(batch_size).zip(seed_cases.chunks(batch_size)) {
-            let ocs = runner.ctx.run_batch(chunk.0, ctx.alarm_s, false, &mut runner.stats);
+            let ocs = runner.ctx.run_batch(chunk.0, ctx.alarm_s, false);
             for ((case, must), oc) in chunk.1.iter().zip(ocs) {
                 if *must {
                     let ok = oc.crash.is_none() && !oc.outs.is_empty() && oc.outs.iter().all(|o| o.status == "ok" && o.bad.is_empty());
@@ -928,15 +1027,21 @@ pub fn run(args: &Args) {
                 continue;
             }
             // A small share is presented with the other format's extension.
+            let origin = fmt;
             let fmt = if rng.chance(1, 64) { if fmt == Fmt::Onnx { Fmt::Rten } else { Fmt::Onnx } } else { fmt };
             let mask = pick_mask(&mut rng, fmt);
             let run_model = !run_disabled && rng.chance(1, 2);
-            batch.push(Case { bytes, fmt, class, seed_name, structured, mask, run_model });
+            batch.push(Case { bytes, fmt, origin, class, seed_name, structured, mask, run_model });
         }
         if batch.is_empty() {
             break;
         }
-        let ocs = runner.ctx.run_batch(&batch, ctx.alarm_s, false, &mut runner.stats);
+        let tb = std::time::Instant::now();
+        let ocs = runner.ctx.run_batch(&batch, ctx.alarm_s, false);
+        if std::env::var_os("LF_DEBUG").is_some() {
+            let slow = batch.iter().zip(&ocs).map(|(c, o)| (o.outs.iter().map(|e| e.micros).sum::<u64>(), c.class.clone(), c.seed_name.clone(), c.bytes.len())).max();
+            eprintln!("batch of {} in {:?}; done {}; slowest load {:?}", batch.len(), tb.elapsed(), done, slow);
+        }
         for (case, oc) in batch.iter().zip(ocs) {
             if let Some(c) = &oc.crash {
                 if matches!(c.stage, ex::ST_RUN | ex::ST_CONST_OUT) {
@@ -952,12 +1057,11 @@ pub fn run(args: &Args) {
         }
     }
 
-    let stats = std::mem::take(&mut runner.stats);
     let unattributed = std::mem::take(&mut runner.unattributed);
     drop(runner);
-    rep.add("children_spawned", stats.children);
-    rep.add("child_deaths", stats.child_deaths);
-    rep.add("child_deaths_after_last_case", stats.child_deaths_after_last_case);
+    rep.add("children_spawned", ctx.children.get());
+    rep.add("child_deaths", ctx.child_deaths.get());
+    rep.add("child_deaths_after_last_case", ctx.child_deaths_after_last_case.get());
     if !unattributed.is_empty() {
         rep.note("memory_errors_while_running_models_whose_constants_are_all_well_formed(not_a_C05_question)", Json::Array(unattributed));
     }
@@ -982,4 +1086,28 @@ pub fn run(args: &Args) {
     }
     ctx.env.cleanup();
     rep.finish();
+}
+
+/// Timing of the child machinery (development aid: `loadfuzz c05bench`).
+pub fn bench() {
+    let ctx = Ctx::new();
+    let spec = &rt::seed_specs()[1];
+    let bytes = rt::build(spec);
+    for (name, mask, run_model) in [("buf_opt only", ex::entry_bit(ex::E_BUF_OPT), false), ("full mask", FULL_MASK, false), ("full mask + run", FULL_MASK, true), ("file only", ex::entry_bit(ex::E_FILE_OPT), false)] {
+        let case = Case { bytes: bytes.clone(), fmt: Fmt::Rten, origin: Fmt::Rten, class: "bench".into(), seed_name: "bench".into(), structured: true, mask, run_model };
+        let t = std::time::Instant::now();
+        for _ in 0..50 {
+            let oc = ctx.run_one(&case, 10, false);
+            if let Some(c) = &oc.crash {
+                eprintln!("bench child died: {} stage {} entry {}\n{}", c.class, c.stage, c.entry, c.stderr);
+                break;
+            }
+        }
+        eprintln!("{}: {:?} per single-case child", name, t.elapsed() / 50);
+        let cases: Vec<Case> = (0..200).map(|_| case.clone()).collect();
+        let t = std::time::Instant::now();
+        let ocs = ctx.run_batch(&cases, 10, false);
+        eprintln!("{}: {:?} per case in a batch of {}", name, t.elapsed() / 200, ocs.len());
+    }
+    ctx.env.cleanup();
 }
